@@ -468,6 +468,21 @@ func checkC11(w *World, run *simrt.Run) {
 		if c.Form == "ctx" {
 			w.checkCtxBuffer(c, "C11")
 		}
+		// the bytes must also be right at the moment they are handed over (a buffer recycled before
+		// its contents were copied out shows here, not as a later mutation)
+		if c.Returned && c.Err == "" && c.Form != "ping" && !c.ReplyOK {
+			w.Violate("C11.wrong-at-handover", "reply-wrong-at-handover:"+c.Form, descCall(c)+": "+c.ReplyWhy)
+		}
+	}
+	for _, e := range w.Execs {
+		if c := w.byID[e.ID]; c != nil && !e.Stream && c.Bad == "" && (!e.ArgOK || e.ArgLen != c.Size) {
+			w.Violate("C11.wrong-at-handover", "handler-argument-wrong-at-handover", descCall(c))
+		}
+	}
+	for _, st := range w.Streams {
+		if st.BadPayload > 0 || st.Foreign > 0 {
+			w.Violate("C11.wrong-at-handover", "stream-message-wrong-at-handover", fmt.Sprintf("stream %d: %d messages with damaged payload, %d carrying another stream's id (handler got %v, client got %v)", st.Idx, st.BadPayload, st.Foreign, st.SGot, st.CGot))
+		}
 	}
 }
 
